@@ -56,10 +56,23 @@ def st_case(draw):
         if lim != "absent":
             f["limit"] = lim
         filters.append(f)
+    if draw(st.integers(0, 3)) == 0:
+        # a filter the relay drops without running it (an empty value list matches nothing) somewhere in the REQ, possibly
+        # with a limit of its own: the filters around it keep their own limits
+        comp = {draw(st.sampled_from(["kinds", "ids", "authors", "#t"])): []}
+        if draw(st.booleans()):
+            comp["limit"] = draw(st.sampled_from([0, 1, 2, MAX_LIMIT]))
+        filters.insert(draw(st.integers(0, len(filters))), comp)
     return {"backend": backend, "store": store, "filters": filters}
 
 
+def is_companion(f):
+    return any(isinstance(v, list) and not v for v in f.values())
+
+
 def eff(f):
+    if is_companion(f):
+        return 0
     lim = f.get("limit", "absent")
     if type(lim) is int:
         return min(lim, MAX_LIMIT)
@@ -84,7 +97,9 @@ class Limits(Sub):
         labels = ["backend:" + backend, "nfilters:%d" % len(filters)]
         for f in filters:
             g = {k: v for k, v in f.items() if k != "limit"}
-            if not (R.wellformed_filter(g) and R.has_condition(g)):
+            if is_companion(f):
+                labels.append("dropped-companion-filter")
+            elif not (R.wellformed_filter(g) and R.has_condition(g)):
                 return Result([], False, ["out-of-domain"])
         from nostr_relay.config import Config
         if Config.max_limit != MAX_LIMIT:
@@ -135,6 +150,82 @@ class Limits(Sub):
         return Result(viol, nt, labels)
 
 
+class SqlFetchFault(Sub):
+    """SQL: the database fails while the rows of a stored query are being fetched - still never more than the limit"""
+
+    name = "sql-fetch-fault"
+    examples = {"quick": 160, "thorough": 1280}
+    shards = {"quick": 8, "thorough": 16}
+    rule = ("SQLite: 8..30 matching events, one or two filters with limits 1..8 / absent, and a sqlite3.OperationalError "
+            "('database is locked') raised once at the j-th row fetch (j = 0..3) of the REQ's statement; oracle: upper bounds "
+            "only (at most min(limit, max_limit) events per filter, no event more often than it has matching filters, at most "
+            "one EOSE); non-trivial = the fault fired after at least one row had been delivered")
+
+    def strategy(self, tier):
+        return st.tuples(st.integers(8, 30), st.lists(st.sampled_from([1, 2, MAX_LIMIT - 1, MAX_LIMIT, MAX_LIMIT + 1, "absent"]),
+                                                      min_size=1, max_size=2), st.integers(0, 3)).map(list)
+
+    def run_case(self, case):
+        return H.run(self._run, case)
+
+    async def _run(self, case):
+        import sqlite3
+
+        import aiosqlite
+
+        n, limits, j = case
+        viol = []
+        labels = []
+        store = [E.free("%064x" % (i + 1), qgen.PUBS[i % 2], 1, E.T0 + i, [["t", "a"]]) for i in range(n)]
+        filters = []
+        for i, lim in enumerate(limits):
+            f = {"kinds": [1]} if i == 0 else {"#t": ["a"]}
+            if lim != "absent":
+                f["limit"] = lim
+            filters.append(f)
+        calls = {"n": -10**9, "fired": False}
+        orig = {}
+
+        def wrap(name):
+            real = getattr(aiosqlite.Cursor, name)
+            orig[name] = real
+
+            async def fetch(self, *a, **kw):
+                calls["n"] += 1
+                if calls["n"] - 1 == j and not calls["fired"]:
+                    calls["fired"] = True
+                    raise sqlite3.OperationalError("database is locked")
+                return await real(self, *a, **kw)
+            setattr(aiosqlite.Cursor, name, fetch)
+
+        async with H.Rig("sql", validators=[], file_db=True) as rig:
+            for ev in store:
+                await rig.add(ev)
+            for name in ("fetchone", "fetchmany", "fetchall"):
+                wrap(name)
+            try:
+                calls["n"] = 0
+                got, eose, err = await rig.req(filters)
+            finally:
+                calls["n"] = -10**9
+                for name, real in orig.items():
+                    setattr(aiosqlite.Cursor, name, real)
+            labels.append("fault-fired" if calls["fired"] else "fault-not-reached")
+            sent = [g["id"] for g in got]
+            allowed = sum(eff(f) for f in filters)
+            if len(sent) > allowed:
+                viol.append(V("sql-over-limit-after-fetch-error", "at most min(n, max_limit) events are sent for a filter",
+                              filters=filters, sent=len(sent), allowed=allowed, fault_at_fetch=j))
+            for i in set(sent):
+                if sent.count(i) > len(filters):
+                    viol.append(V("sql-duplicate-after-fetch-error", "an event is sent at most once per matching filter",
+                                  id=i, copies=sent.count(i), filters=len(filters)))
+                    break
+            if eose > 1:
+                viol.append(V("sql-eose-count-after-fetch-error", "at most one EOSE", eose=eose))
+        return Result(viol, calls["fired"] and bool(sent), labels)
+
+
 def limit_class(f):
     lim = f.get("limit", "absent")
     if lim == 0:
@@ -149,4 +240,4 @@ def shape(f):
     return "multi-value" if multi else "single-value"
 
 
-SUBCHECKS = [Limits()]
+SUBCHECKS = [Limits(), SqlFetchFault()]
